@@ -192,7 +192,12 @@ impl ObjectReceiver {
 
         if self.transfer_length.unwrap() == 0 {
             debug_assert!(self.block_writer.is_none());
-            self.complete(now);
+            // An empty object is complete as soon as it is known - but only once the FDT is attached
+            // and its writer exists: completing it before would register the TOI as received
+            // although nothing has been delivered (late join between the FDT and the object)
+            if self.object_writer.is_some() {
+                self.complete(now);
+            }
             return Ok(());
         }
 
